@@ -26,7 +26,7 @@ from harness import common
 
 GEN_MODULES = ['params']
 MODEL_TARGETS = ['model/M_Params.vo']
-PROOF_TARGETS = ['proofs/P_Params.vo', 'proofs/P_ParamsViews.vo', 'proofs/P_ParamsWorld.vo', 'proofs/P_ParamsMap.vo', 'proofs/P_ParamsRec.vo']
+PROOF_TARGETS = ['proofs/P_Params.vo', 'proofs/P_ParamsViews.vo', 'proofs/P_ParamsWorld.vo', 'proofs/P_ParamsMap.vo', 'proofs/P_ParamsRec.vo', 'proofs/P_ParamsArgs.vo', 'proofs/P_ParamsRefine.vo', 'proofs/P_ParamsE2E.vo']
 LEVEL = 'proof'
 RULE = ('operation sequences over {ParameterSet(), add_param front/back, map_param to model subsets with None / str / '
         'sequence aliases (incl. duplicate aliases, duplicate global names, wrong-length alias sequences, foreign and '
